@@ -5,6 +5,7 @@ import (
 	"fmt"
 
 	"github.com/protolambda/zrnt/eth2/beacon/common"
+	"github.com/protolambda/zrnt/eth2/beacon/deneb"
 	"github.com/protolambda/zrnt/eth2/beacon/phase0"
 )
 
@@ -29,7 +30,18 @@ func ValidateVoluntaryExit(ctx context.Context, volExit *phase0.SignedVoluntaryE
 	if err != nil {
 		return GossipValidatorResult{IGNORE, err}
 	}
-	if err := phase0.ValidateVoluntaryExit(exitVal.Spec(), epc, state, volExit); err != nil {
+	spec := exitVal.Spec()
+	slot, err := state.Slot()
+	if err != nil {
+		return GossipValidatorResult{IGNORE, err}
+	}
+	if spec.SlotToEpoch(slot) >= spec.DENEB_FORK_EPOCH {
+		// deneb modified process_voluntary_exit: the signature domain is fixed to the capella fork version
+		err = deneb.ValidateVoluntaryExit(spec, epc, state, volExit)
+	} else {
+		err = phase0.ValidateVoluntaryExit(spec, epc, state, volExit)
+	}
+	if err != nil {
 		return GossipValidatorResult{REJECT, err}
 	}
 
